@@ -877,7 +877,10 @@ def _work(item):
                     lv2 = lv + "_after_framing_tags"
                     k = "fault:" + cls.split(":")[0] + "|" + lv2
                     res["classes"][k] = res["classes"].get(k, 0) + 1
-                    record(judge_fault(did, name, mt, bname + "+" + pname, cls, lv2, note, tree, v))
+                    # one cause class for everything that is skipped behind framing tags
+                    record(judge_fault(did, name, mt, bname + "+" + pname,
+                                       "empty_value" if cls == "empty_value" else "any_fault", lv2,
+                                       cls + ":" + str(note), tree, v))
     else:
         mn = build(members, False, "min")
         if part == "faults_min":
@@ -1265,6 +1268,10 @@ def run(ctx):
         "not-in-message / other-container tag; header: remove required field, bad value); then the verdicts of a "
         "corpus are recomputed under permutations of <components> (all 720 / 6 for the synthetic / toy dictionary, "
         "reversal + dependencies-first + dependencies-last + rotations + adjacent transpositions for FIX44.xml). "
+        "Value faults of numeric datatypes include literals with a legal start and an illegal tail (blank, line "
+        "feed, digit grouping, exponent, second decimal point, letters). Framing: valid instances and all faults of "
+        "the minimal instance (plus the in-group faults of the all-groups instance) are repeated with CheckSum(10) "
+        "in front, with the trailer tags after the first member and with header + trailer in front of the body. "
         "Foreign tags are also drawn from the members of header / trailer groups (HopCompID ...) and from tags the "
         "dictionary allows only inside groups. Validation history: per dictionary a corpus of small cases that put "
         "the same literal value into different fields / datatypes (minimal instances, all their faults, header "
